@@ -48,6 +48,21 @@ func (m *MutexMap) Lock(key interface{}) Unlocker {
 	return e
 }
 
+// TryLock acquires the lock corresponding to this key if nobody holds or waits for it.
+// When it returns true, Unlock() must be called to release the lock when done.
+func (m *MutexMap) TryLock(key interface{}) (Unlocker, bool) {
+	m.ml.Lock()
+	defer m.ml.Unlock()
+	if _, ok := m.ma[key]; ok {
+		// an entry exists only while somebody holds or waits for its lock
+		return nil, false
+	}
+	e := &mutexMapEntry{m: m, key: key, cnt: 1}
+	e.el.Lock() // a new mutex: does not block
+	m.ma[key] = e
+	return e, true
+}
+
 // Unlock releases the lock for this entry.
 func (entry *mutexMapEntry) Unlock() {
 	m := entry.m
